@@ -1,12 +1,12 @@
 package main
 
 import (
-	"strconv"
 	"fmt"
 	"go/constant"
 	"go/token"
 	"go/types"
 	"math/big"
+	"strconv"
 	"strings"
 
 	"golang.org/x/tools/go/ssa"
@@ -1436,7 +1436,6 @@ func (fc *funcCtx) declOrdinal(a *ssa.Alloc) int {
 	return fc.declOrd[a]
 }
 
-
 // rangeBoundFact: a range over a slice, array or integer keeps its position in a compiler-generated
 // cell that only the loop head writes (-1 before the loop, +1 per iteration, the body entered only
 // while position+1 < n with n computed once before the loop). So -1 <= position and position+1 <= n
@@ -1486,7 +1485,6 @@ func (fc *funcCtx) rangeBoundFact(st *State, l *Loop) {
 	}
 	st.assume(and(app("<=", "(- 1)", pos.T), app("<=", plus(pos.T, "1"), n.T)))
 }
-
 
 // ownGrownSlices: local slice variables whose every assignment is nil, make, a composite literal, a
 // re-slice of the variable itself, or append to the variable itself, and whose address goes nowhere
